@@ -42,4 +42,14 @@ PROPS = {
         "guards": ["mode-direct", "mode-proxy", "applied", "preview", "scoped-selector", "target-criterion-applied"],
         "parts": [{"engine": "mcpgate", "test": "TestProp_C14_MCP", "quick": 600, "thorough": 40000, "shards": {"quick": 4}}],
     },
+    "C18": {
+        "rule": "MCP tier: config_apply in preview_only / write_only / write_and_reload with valid, commented, identical, unparsable, uncompilable and empty content, "
+                "against a running-instance health endpoint that is up, down or refuses the token, with and without an existing file; the file must hold "
+                "exactly the previous or the submitted bytes, submitted bytes only if they compile, and the previous bytes again when the reload cannot be "
+                "verified | mcp.writeFileAtomic SIGKILLed in a child process at each of its six step labels",
+        "assumptions": [SAMPLED],
+        "guards": ["rolled-back", "applied"],
+        "parts": [{"engine": "mcpgate", "test": "TestProp_C18_MCPApply", "quick": 60, "thorough": 1500, "shards": {"quick": 4}},
+                  {"engine": "mcpgate", "test": "TestProp_C18_MCPFileCrash", "quick": 100, "thorough": 2000, "shards": {"quick": 4}}],
+    },
 }
